@@ -182,6 +182,14 @@ def run(spec, keep_tmp=False, sample=None):
                     src.seek(2)
                     if nth:
                         src = FaultyReader(src, nth, True)
+                elif src_kind == 'seekable_close_true':
+                    # a user file object whose close() returns a (truthy) value: still just a file object
+                    class ClosesTrue(io.BytesIO):
+                        def close(self_):
+                            super().close()
+                            return True
+                    src = ClosesTrue(b'xy' + data)
+                    src.seek(2)
                 else:
                     src = fakes3.NonSeekableReader(data, ts.get('read_sizes'))
                     if nth:
@@ -313,6 +321,7 @@ def _run(spec, scenario, cfgkw, fs_fault, cancel_at, cancel_how, keep_tmp, sampl
             f.__defaults__ = saved
     from harness.sched import instr as _instr
     _instr.PIN_TRACKING[0] = bool(sample)
+    _instr.STATE_WRITE_YIELD[0] = bool(spec.get('state_write_yield'))
     scen.PROGRESS_YIELD[0] = bool(spec.get('progress_yield'))
     scen.QUEUED_YIELD[0] = bool(spec.get('queued_yield'))
     with scaled_adjuster(utils, 1, 1000, 1000), scaled_aggregator(spec.get('agg_threshold')):
